@@ -2,7 +2,9 @@ package main
 
 import (
 	"context"
+	"errors"
 	"fmt"
+	"strings"
 	"time"
 
 	kmip "github.com/smira/go-kmip"
@@ -253,5 +255,70 @@ func c08SlowHandlers(r *Result) {
 		cancel()
 		<-ret
 		r.Stats["slow-handler-scenarios"]++
+	}
+}
+
+// c08Messages: "Operation Failed with the error's message": the text a handler's error (or panic value) carries reaches the
+// Result Message unchanged - percent signs, format verbs, quotes, line breaks, non-ASCII text, long text and the empty message.
+func c08Messages(r *Result) {
+	msgs := []string{"volume is 100% full", "key%2Fid not stored (%d%s)", "trailing %", "%%", "%!s(MISSING)", "%v %+v %#v %T %q %x", "two\nlines\tand a tab",
+		"naïve ☃ 鍵", `quote " and \ backslash`, "", strings.Repeat("long message ", 400), "{{.}} ${x} %[1]d"}
+	for mi, m := range msgs {
+		for _, how := range []string{"plain error", "error with reason", "panic with a string", "panic with an error"} {
+			key := fmt.Sprintf("handler fails (%s) with message %q", how, m[:min(len(m), 60)])
+			crumb("C08 scenario: " + key)
+			r.eval(key, true)
+			s := &kmip.Server{}
+			m := m
+			s.Handle(kmip.OPERATION_DESTROY, func(ctx *kmip.RequestContext, item *kmip.RequestBatchItem) (interface{}, error) {
+				switch how {
+				case "plain error":
+					return nil, errors.New(m)
+				case "error with reason":
+					return nil, reasonErr{m, kmip.RESULT_REASON_ITEM_NOT_FOUND}
+				case "panic with a string":
+					panic(m)
+				}
+				panic(errors.New(m))
+			})
+			sc, cc := rec.Pipe()
+			l := rec.NewListener()
+			l.Push(rec.AcceptStep{Conn: rec.NewConn(sc, 1)})
+			init := make(chan struct{})
+			ret := make(chan error, 1)
+			go func() { ret <- s.Serve(l, init) }()
+			<-init
+			_ = cc.SetDeadline(time.Now().Add(3 * time.Second))
+			req := kmip.Request{Header: kmip.RequestHeader{Version: kmip.ProtocolVersion{Major: 1, Minor: 4}, BatchCount: 2},
+				BatchItems: []kmip.RequestBatchItem{
+					{Operation: kmip.OPERATION_DESTROY, UniqueID: []byte{1}, RequestPayload: kmip.DestroyRequest{UniqueIdentifier: "b"}},
+					{Operation: kmip.OPERATION_DISCOVER_VERSIONS, UniqueID: []byte{2}, RequestPayload: kmip.DiscoverVersionsRequest{}}}}
+			var resp kmip.Response
+			err := kmip.NewEncoder(cc).Encode(&req)
+			if err == nil {
+				err = kmip.NewDecoder(cc).Decode(&resp)
+			}
+			want := m
+			if strings.HasPrefix(how, "panic") {
+				want = "panic: " + m
+			}
+			got := "no response: " + fmt.Sprint(err)
+			if err == nil && len(resp.BatchItems) == 2 {
+				got = resp.BatchItems[0].ResultMessage
+				if resp.BatchItems[0].ResultStatus != kmip.RESULT_STATUS_OPERATION_FAILED || resp.BatchItems[1].ResultStatus != kmip.RESULT_STATUS_SUCCESS {
+					got = fmt.Sprintf("statuses %d/%d, message %q", uint32(resp.BatchItems[0].ResultStatus), uint32(resp.BatchItems[1].ResultStatus), got)
+				}
+			}
+			if got != want {
+				r.find(Finding{Kind: "violation", What: "the failed item's Result Message is not the error's message", Input: key, Expect: fmt.Sprintf("%q", want[:min(len(want), 300)]), Actual: fmt.Sprintf("%q", got[:min(len(got), 300)])})
+			}
+			cc.Close()
+			ctx, cancel := context.WithTimeout(context.Background(), 5*time.Second)
+			_ = s.Shutdown(ctx)
+			cancel()
+			<-ret
+			r.Stats["message-text-scenarios"]++
+		}
+		_ = mi
 	}
 }
